@@ -22,6 +22,7 @@ import (
 	"github.com/tsawler/tabula/core"
 	"github.com/tsawler/tabula/font"
 	"github.com/tsawler/tabula/format"
+	"github.com/tsawler/tabula/reader"
 
 	"verifharness/fw"
 )
@@ -50,7 +51,7 @@ func entriesFor(kind string) []string {
 	switch kind {
 	case "pdf":
 		return []string{"PageCount", "Text", "Fragments", "ToMarkdown", "Chunks", "Document", "Analyze", "Lines", "Paragraphs", "Blocks", "ReadingOrder", "Headings", "Lists", "Elements",
-			"IsCharacterLevel", "IsMultiColumn", "ByColumn.Text", "JoinParagraphs.Text", "PreserveLayout.Text", "ExcludeHF.Text", "Pages(1).Text", "PageRange(1,2).Fragments", "Detect"}
+			"IsCharacterLevel", "IsMultiColumn", "ByColumn.Text", "JoinParagraphs.Text", "PreserveLayout.Text", "ExcludeHF.Text", "Pages(1).Text", "PageRange(1,2).Fragments", "Detect", "reader.Images", "reader.Objects"}
 	case "docx", "odt", "xlsx", "pptx", "epub", "html":
 		return []string{"PageCount", "Text", "ToMarkdown", "Chunks", "Document", "ExcludeHF.Text", "Detect",
 			// format-mismatched calls: PDF-only methods on non-PDF inputs must return errors
@@ -168,6 +169,67 @@ func runEntry(path, entry string) (er entryResult) {
 	case "PageRange(1,2).Fragments":
 		_, _, err := tabula.Open(path).PageRange(1, 2).Fragments()
 		set(err)
+	case "reader.Images":
+		// the image path of the low-level API: every image XObject of every page, decoded and converted
+		rd, err := reader.Open(path)
+		if err != nil {
+			set(err)
+			return
+		}
+		defer rd.Close()
+		n, err := rd.PageCount()
+		set(err)
+		for i := 0; i < n && i < 8; i++ {
+			pg, err := rd.GetPage(i)
+			if err != nil {
+				set(err)
+				continue
+			}
+			imgs, err := rd.ExtractPageImages(pg)
+			set(err)
+			for k := range imgs {
+				_, err := imgs[k].ToPNG()
+				set(err)
+			}
+		}
+	case "reader.Objects":
+		// the object-level API: trailer, catalog, info, every object resolved deeply, page attributes
+		rd, err := reader.Open(path)
+		if err != nil {
+			set(err)
+			return
+		}
+		defer rd.Close()
+		rd.Version()
+		rd.FileSize()
+		rd.XRefTable()
+		_, err = rd.GetCatalog()
+		set(err)
+		rd.GetInfo()
+		rd.ResolveDeep(rd.Trailer())
+		no := rd.NumObjects()
+		for k := 0; k <= no+1 && k < 400; k++ {
+			o, err := rd.GetObject(k)
+			if err == nil {
+				rd.ResolveDeep(o)
+			}
+		}
+		rd.ClearCache()
+		n, _ := rd.PageCount()
+		for i := -1; i <= n && i < 8; i++ {
+			pg, err := rd.GetPage(i)
+			if err != nil || pg == nil {
+				continue
+			}
+			pg.MediaBox()
+			pg.CropBox()
+			pg.Rotate()
+			pg.Width()
+			pg.Height()
+			pg.Resources()
+			pg.Contents()
+			rd.ExtractText(pg)
+		}
 	case "Detect":
 		f, err := os.Open(path)
 		if err != nil {
